@@ -30,8 +30,10 @@ def worker(wid, names):
     copy = "/tmp/verif-seeded-repo%d" % wid
     out = "/tmp/verif-seeded-out%d" % wid
     shutil.rmtree(snap, ignore_errors=True)
-    subprocess.run(["rsync", "-a", "--exclude", ".git", "--exclude", "seeded", "--exclude", "design_probes",
-                    "--exclude", ".cache/kres", "/verif/", snap + "/"], check=True)
+    rs = subprocess.run(["rsync", "-a", "--exclude", ".git", "--exclude", "seeded", "--exclude", "design_probes",
+                         "--exclude", ".cache/kres", "/verif/", snap + "/"])
+    if rs.returncode not in (0, 24):   # 24: a cache file vanished while copying (another run is using the live cache)
+        raise SystemExit("snapshot rsync failed: %d" % rs.returncode)
     # private scratch paths for this snapshot
     k = os.path.join(snap, "lib", "krun.py")
     t = open(k).read().replace('SCRATCH = "/tmp/verif-scratch"', 'SCRATCH = "/tmp/verif-scratch-w%d"' % wid)
